@@ -122,7 +122,7 @@ def r8_attach_iff_tracked(facts):
             c.unk(inst, where, "guard outside the Boolean fragment: %s" % err)
             continue
         ops = TE.operand_params(facts, b)
-        bad_kinds = [o for o in ops if o[1].startswith("other")]
+        bad_kinds = [o for o in ops if o[1].startswith("other") or o[1] == "slice"]
         if bad_kinds:
             c.unk(inst, where, "parameter carries arrays in a form the evaluator does not model: %s" % [(o[0], o[1]) for o in bad_kinds])
             continue
